@@ -76,9 +76,17 @@ def chmod_symbolic(spec, isdir=False):
             elif op == "-":
                 mode &= ~bits
             else:
-                mode = (mode & ~(who & 0o7777 if True else 0)) | bits
-                # '=' clears the selected classes' rwx (and their special bit) before setting
+                # '=' clears the selected classes' rwx (and their special bit) before setting; for a directory chmod keeps
+                # the set-id bits that are already there
+                if isdir:
+                    bits |= mode & 0o6000 & who
+                mode = (mode & ~who) | bits
     return mode & 0o7777
+
+
+def perm_operand(fn, rec):
+    """the twelve bits a -perm operand stands for on this entry: a symbolic mode is read as chmod reads it, for a directory or not"""
+    return fn[3] if len(fn) > 3 and stat.S_ISDIR(rec.st_mode) else fn[2]
 
 
 def gen_symbolic(rng):
@@ -91,6 +99,9 @@ def gen_symbolic(rng):
             perm = rng.choice("ugo")
         else:
             perm = "".join(rng.sample("rwx", rng.randint(0, 3)))
+            if rng.random() < 0.35:
+                # X and the set-id bits read differently for a directory (chmod semantics): checked on directory entries
+                perm += rng.choice(["X", "X", "s", "t", "Xs"])
         clauses.append(who + op + perm)
     return ",".join(clauses)
 
@@ -195,9 +206,11 @@ def run(ctx):
         # symbolic operands with subtracting / re-assigning / copying clauses, against the octal value the reference evaluator gives
         for _ in range(60 if ctx.thorough else 14):
             sym = gen_symbolic(rng)
-            m = chmod_symbolic(sym)
             pre, kind = rng.choice([("", "exact"), ("-", "all"), ("/", "any")])
-            tests.append((["-perm", pre + sym], ("perm", kind, m), False, "keep"))
+            tests.append((["-perm", pre + sym], ("perm", kind, chmod_symbolic(sym), chmod_symbolic(sym, True)), False, "keep"))
+        for sym in ("a+X", "u=rwX,go=rX", "u+s,u=r", "a=X"):
+            pre, kind = rng.choice([("", "exact"), ("-", "all"), ("/", "any")])
+            tests.append((["-perm", pre + sym], ("perm", kind, chmod_symbolic(sym), chmod_symbolic(sym, True)), False, "keep"))
         for flag, fn in (("-links", lambda s: s.st_nlink), ("-inum", lambda s: s.st_ino), ("-uid", lambda s: s.st_uid), ("-gid", lambda s: s.st_gid)):
             vals = sorted({fn(v[0]) for v in views.values()})[:5]
             for v in vals:
@@ -235,10 +248,10 @@ def run(ctx):
                 for n in names:
                     rec = spec_record(mode, depth, *views[n])
                     if rec is not None:
-                        key = (fn[1], fn[2], rec.st_mode)
+                        key = (fn[1], perm_operand(fn, rec), rec.st_mode)
                         if key not in perm_keys:
                             perm_keys[key] = len(perm_lines)
-                            perm_lines.append("num perm %s %d %d" % (fn[1], fn[2], rec.st_mode))
+                            perm_lines.append("num perm %s %d %d" % (fn[1], key[1], rec.st_mode))
         perm_out = fw.run_lines(fw.FUVM, perm_lines)
         bad = []
         for (mode, depth, roots, args, fn, xflag), i in zip(cases, impl):
@@ -255,7 +268,7 @@ def run(ctx):
                     got.discard(n.encode())
                     continue
                 if isinstance(fn, tuple) and fn[0] == "perm":
-                    ok = rec is not None and perm_out[perm_keys[(fn[1], fn[2], rec.st_mode)]] == "1"
+                    ok = rec is not None and perm_out[perm_keys[(fn[1], perm_operand(fn, rec), rec.st_mode)]] == "1"
                 elif isinstance(fn, tuple) and fn[0] == "samefile":
                     rl, rs = views[fn[1]]
                     refrec = rs[1] if (mode != "P" and rs[0] == "ok") else rl
